@@ -58,7 +58,7 @@ claim("C03", "M", "SMT bounded model checking of MIR (z3 + cvc5 portfolio)",
       "Kernel level (narrow): the payer's bookkeeping of one outbound payment - OutboundPayments::claim_htlc, fail_htlc, abandon_payment and add_new_pending_payment executed from the MIR on one entry of the pending-payment map in each state (Legacy / Retryable / Fulfilled / Abandoned, awaiting-invoice states for abandon), fields symbolic: PaymentSent is queued exactly once, when a claim meets a payment not yet fulfilled, and never for an unknown id; a fulfilled payment is never reported failed; a failed in-flight HTLC is reported once and PaymentFailed is queued exactly when it was the last HTLC of an abandoned payment - at most once, after the path failure, carrying the completion action - and the entry is dropped then and only then; duplicate failures and claims change nothing; abandoning reports failure at once only with no HTLC in flight and never un-fulfils a payment; a payment id in use is refused; an HTLC found in a monitor at start-up is tracked again whatever state the persisted entry is in (insert_from_monitor_on_startup); after a partially failed multi-part send only the parts that were not committed are forgotten (filter closure of handle_pay_route_err). The in-flight set is abstracted to its size, onion-failure decoding / hashing / the retry policy are free. Replayed on live nodes (five single-path scenarios, a two-part payment with one part failing while the other is in flight, and an on-chain failure whose terminal event must be replayed after a restart; driven by the library's test utilities, which assert the payer's events at every step). That the ChannelManager calls these functions exactly when HTLCs resolve (off-chain, on-chain, after restart), balances, retries and event replay across restarts are outside the claim.",
       "trusted: rustc MIR dump, engine_m, z3/cvc5; summaries of PendingOutboundPayment::remove / remaining_parts checked against their MIR per variant (C03.m)")
 claim("C09", "M", "SMT bounded model checking of MIR (z3 + cvc5 portfolio)",
-      "Kernel level (narrow): the bookkeeping that decides when a monitor update counts as complete and what is released then. ChainMonitor::channel_monitor_updated (<= 3 / 4 pending updates, arbitrary ids): completing an update removes exactly it from the pending list and the Completed event is raised iff no update of the channel is pending any more, whatever the order of completions. ChainMonitor::update_channel_internal: the update is applied to the monitor exactly once and before the persister is invoked; an update whose persistence is in progress is appended to the pending list and only then; Completed is reported only if it applied, persisted at once and the channel is not post-close. FundedChannel::monitor_updating_restored (region from the peer-connected test to its end, arbitrary state): a revoke_and_ack / commitment update leaves only if that message was being held, every held message the signer can produce leaves unless its predecessor still waits for the signer, in the recorded order, and the hold flags are cleared. Replayed on two live nodes whose persister answers InProgress (sender-side and receiver-side hold, a completion for a foreign update id). That every state-revealing action is routed through this bookkeeping, blocked updates, the deferred mode and restarts are outside the claim.",
+      "Kernel level (narrow): the bookkeeping that decides when a monitor update counts as complete and what is released then. ChainMonitor::channel_monitor_updated (<= 3 / 4 pending updates, arbitrary ids): completing an update removes exactly it from the pending list and the Completed event is raised iff no update of the channel is pending any more, whatever the order of completions. ChainMonitor::update_channel_internal: the update is applied to the monitor exactly once and before the persister is invoked; an update whose persistence is in progress is appended to the pending list and only then; Completed is reported only if it applied, persisted at once and the channel is not post-close. ChannelManager::channel_monitor_updated (whole function, <= 2 / 3 in-flight updates): the channel is resumed, or a closed channel's blocked actions run, iff no in-flight update above the completed id is left. FundedChannel::monitor_updating_restored (region from the peer-connected test to its end, arbitrary state): a revoke_and_ack / commitment update leaves only if that message was being held, every held message the signer can produce leaves unless its predecessor still waits for the signer, in the recorded order, and the hold flags are cleared. Replayed on two live nodes whose persister answers InProgress (sender-side and receiver-side hold, a completion for a foreign update id). That every state-revealing action is routed through this bookkeeping, blocked updates, the deferred mode and restarts are outside the claim.",
       "trusted: rustc MIR dump, engine_m, z3/cvc5; MonitorEvent construction (raw-pointer vec! code) is a cut point, not executed")
 claim("C15", "M", "SMT bounded model checking of MIR (z3 + cvc5 portfolio)",
       "Kernel level: (a) the nonce / key-rotation kernel of PeerChannelEncryptor - one message across encrypt_message_with_header_0s, decrypt_length_header and decrypt_message from an arbitrary coupled post-handshake state (an inductive step over any number of messages and key rotations): the message is accepted with its length and both sides stay in step, nonces are consecutive and never reused, keys rotate exactly at nonce 1000 on both sides, an altered header or body is rejected; AEAD and HKDF abstracted (keys as identities, decryption succeeds iff same key, nonce and unaltered bytes). (c) one iteration of the read loop of PeerManager::do_read_event from an arbitrary loop-head state: partial reads, completed length headers, bodies and handshake acts are reassembled for reads of any size, authentication failures and lengths below 2 drop the connection, the buffer invariant is preserved, no slice index can go out of range. (e) the write step of do_attempt_write_data: the socket is offered the unsent rest of the front buffer and the offset advances by what it took (no byte sent twice or skipped under back-pressure). (d) do_handle_message_holding_peer_lock / handle_message: nothing but Init is accepted before Init, a second Init is refused, a refused message is not handled. Replayed with two real encryptors (hook), with two real PeerManagers over in-memory sockets cut into fragments of ten sizes, and [d] through a raw initiator (hook). The handshake cryptography, which messages are queued when, and panics on arbitrary handshake bytes are outside the claim.",
